@@ -250,9 +250,37 @@ def discharge(eng, ob, timeout_s=10, use_cvc5=True, both=False):
 # text-level interface: obligations are serialised to SMT-LIB2 in the process that
 # generated them and solved in a pool of solver processes
 
-def serialize(eng, ob):
+def relevant_hyps(hyps, goal, rounds=3):
+    """Goal-directed selection of hypotheses (sound: dropping hypotheses only weakens them): keep the
+    hypotheses connected to the goal through shared non-ubiquitous symbols."""
+    syms = [consts_of([h]) for h in hyps]
+    freq = {}
+    for ss in syms:
+        for n in ss:
+            freq[n] = freq.get(n, 0) + 1
+    ubiq = {n for n, c in freq.items() if c > max(8, 0.35 * len(hyps))}
+    cur = set(consts_of([goal])) - ubiq
+    keep = set()
+    for _ in range(rounds):
+        added = False
+        for i, ss in enumerate(syms):
+            if i in keep:
+                continue
+            if not ss or (ss - ubiq) & cur:
+                keep.add(i)
+                cur |= (ss - ubiq)
+                added = True
+        if not added:
+            break
+    return [h for i, h in enumerate(hyps) if i in keep]
+
+
+def serialize(eng, ob, reduced=False):
     s = z3.Solver()
-    for a in eng.axioms() + list(ob.facts) + list(ob.pc):
+    hyps = eng.axioms() + list(ob.facts) + list(ob.pc)
+    if reduced:
+        hyps = eng.axioms() + relevant_hyps(list(ob.facts) + list(ob.pc), ob.goal)
+    for a in hyps:
         s.add(a)
     if ob.expect_sat:
         s.add(ob.goal)
@@ -293,7 +321,7 @@ def _model_summary(m, limit=40):
     return out
 
 
-def solve_text(text, nparts, timeout_s, expect_sat=False, use_cvc5=True, both=False):
+def solve_text(text, nparts, timeout_s, expect_sat=False, use_cvc5=True, both=False, reduced_text=None):
     """-> dict(status, backend, seconds, reason, model, model_text, failed_parts, unknown_parts)"""
     t0 = time.time()
     out = {"status": None, "backend": "z3", "reason": "", "model": {}, "model_text": "", "failed_parts": [], "unknown_parts": []}
@@ -309,11 +337,20 @@ def solve_text(text, nparts, timeout_s, expect_sat=False, use_cvc5=True, both=Fa
         return out
 
     def staged(assumption):
-        stages = [(int(min(timeout_s, 2) * 1000), False, "z3"), (int(timeout_s * 1000), True, "z3-mbqi"),
-                  (int(timeout_s * 1000), False, "z3")]
+        # 1: E-matching, short; 2: goal-directed hypothesis subset (proof only); 3: MBQI (counter-models);
+        # 4: E-matching, full budget
+        stages = [(int(min(timeout_s, 2) * 1000), False, "z3", text),
+                  (int(min(timeout_s, 6) * 1000), False, "z3-relevant-hyps", reduced_text),
+                  (int(timeout_s * 1000), True, "z3-mbqi", text),
+                  (int(timeout_s * 1000), False, "z3", text)]
         s, r, name = None, z3.unknown, "z3"
-        for ms, mbqi, name in stages:
-            s, r = _check(text, assumption, ms, mbqi)
+        for ms, mbqi, name, tx in stages:
+            if tx is None:
+                continue
+            s, r = _check(tx, assumption, ms, mbqi)
+            if tx is reduced_text and r != z3.unsat:
+                r = z3.unknown          # a model of fewer hypotheses refutes nothing
+                continue
             if r != z3.unknown:
                 break
         return s, r, name
